@@ -22,6 +22,13 @@ def run(pid, tier, seed):
       if ev["k"] == "count":
         g = ev["g"]
         ident = {"clause": cl, "class": g["cls"], "depth_multiplier_gt_1": g["dm"] > 1}
+        # the recorded findings are exact wrong formulas, not "anything wrong for this class"
+        wrong = {"AveragePooling2D": g["cin"] * g["kh"] * g["kw"], "QAveragePooling2D": 0}.get(g["cls"])
+        if g["cls"] in ("DepthwiseConv2D", "QDepthwiseConv2D") and g["dm"] > 1:
+          oh = (g["h"] - g["kh"]) // g["sh"] + 1 if g["pad"] == "valid" else -(-g["h"] // g["sh"])
+          ow = (g["w"] - g["kw"]) // g["sw"] + 1 if g["pad"] == "valid" else -(-g["w"] // g["sw"])
+          wrong = g["kh"] * g["kw"] * oh * ow * g["cin"]
+        ident["reported_is_the_known_wrong_formula"] = wrong is not None and ev["reported"] == wrong
         if ev.get("via") == "estimate":
           ident["via"] = "estimate.extract_model_operations"
         chk.violation(ident, {"geometry": g, "reported": ev["reported"]})
